@@ -285,6 +285,56 @@ async fn server_case(d: Duration, finish_at: Option<Duration>, throttled: bool) 
     Ok(())
 }
 
+/// C06 / C08: the deadline passes while the channel is not being polled; the handler (not yet aborted, because the
+/// expiry has not been processed) then finishes and stages its response; then the channel is polled. Nothing may be
+/// transmitted for the expired request ("transmits nothing for it afterwards").
+async fn server_late_completion_case(throttled: bool) -> Result<(), String> {
+    use futures::task::noop_waker_ref;
+    use std::task::{Context, Poll};
+    let what = format!("server: handler finishes after the deadline but before the channel is polled again, request-limit layer {throttled}");
+    let (mut peer, server_end): (ClientEnd, ServerEnd) = transport::channel::unbounded();
+    let released = Arc::new(AtomicBool::new(false));
+    let rel = released.clone();
+    let handler = server::serve(move |_ctx: context::Context, body: String| {
+        let rel = rel.clone();
+        async move {
+            futures::future::poll_fn(|_| if rel.load(Ordering::SeqCst) { Poll::Ready(()) } else { Poll::Pending }).await;
+            Ok(body)
+        }
+    });
+    let mut ctx = context::current();
+    ctx.deadline = Instant::now() + Duration::from_secs(10);
+    peer.send(ClientMessage::Request(Request { context: ctx, id: 7, message: "seven".to_string() })).await.map_err(|e| e.to_string())?;
+    let base = BaseChannel::with_defaults(server_end);
+    let mut cx = Context::from_waker(noop_waker_ref());
+    macro_rules! go {
+        ($requests:expr) => {{
+            let mut requests = Box::pin($requests);
+            let r = match requests.as_mut().poll_next(&mut cx) {
+                Poll::Ready(Some(Ok(r))) => r,
+                _ => return Err(format!("C08 {what}: the request was not yielded")),
+            };
+            let mut exec = Box::pin(r.execute(handler));
+            let _ = exec.as_mut().poll(&mut cx);
+            tokio::time::advance(Duration::from_secs(20)).await; // the deadline passes; the channel is not polled
+            released.store(true, Ordering::SeqCst);
+            let _ = exec.as_mut().poll(&mut cx); // the handler finishes late and stages its response
+            for _ in 0..3 {
+                let _ = requests.as_mut().poll_next(&mut cx);
+            }
+        }};
+    }
+    if throttled {
+        go!(base.max_concurrent_requests(4).requests());
+    } else {
+        go!(base.requests());
+    }
+    if let Some(Some(Ok(r))) = peer.next().now_or_never() {
+        return Err(format!("C06 {what}: a response for request {} was transmitted although its deadline had passed before the handler finished", r.request_id));
+    }
+    Ok(())
+}
+
 #[tokio::test(start_paused = true)]
 async fn deadlines_enforced_and_never_early() {
     let mut evaluations = 0u64;
@@ -315,9 +365,15 @@ async fn deadlines_enforced_and_never_early() {
     if let Err(e) = client_abandoned_then_answered_case().await {
         failures.push(e);
     }
-    println!("VERIF-BOUNDED deadlines evaluations={evaluations} bound=4 deadlines x (3 reply times | 3 handler finish times x 2 channel stacks) + 1 queued-before-transmission scenario + 1 abandoned-as-the-reply-arrives scenario");
+    for throttled in [false, true] {
+        evaluations += 1;
+        if let Err(e) = server_late_completion_case(throttled).await {
+            failures.push(e);
+        }
+    }
+    println!("VERIF-BOUNDED deadlines evaluations={evaluations} bound=4 deadlines x (3 reply times | 3 handler finish times x 2 channel stacks) + 1 queued-before-transmission scenario + 1 abandoned-as-the-reply-arrives scenario + 2 late-handler-completion scenarios");
     let mut kept: Vec<String> = vec![];
-    for tag in ["C05", "C06", "C11", "C16"] {
+    for tag in ["C05", "C06", "C08", "C11", "C16"] {
         kept.extend(failures.iter().filter(|f| f.starts_with(tag)).take(2).cloned());
     }
     for f in &kept {
